@@ -50,12 +50,13 @@ def cases(tier, seed):
     for name in WRAPPERS:
         if name in SKIP:
             continue
-        if tier == "quick" and name in HEAVY:
+        if name in HEAVY:
             # symbolic s makes every mask condition a product of two symbolic reals (minutes per wrapper): the quick tier uses a list of
-            # concrete scale factors for these wrappers, the thorough tier the symbolic factor
+            # concrete scale factors for these wrappers, the thorough tier both the list and the symbolic factor
             for sv in S_LIST:
                 out.append({"id": f"branches-{name}-s={sv}", "kind": "branches", "wrapper": name, "weight": 2, "s_value": sv})
-            continue
+            if tier == "quick":
+                continue
         out.append({"id": f"branches-{name}", "kind": "branches", "wrapper": name, "weight": 4})
     out.append({"id": "triangle-kernel", "kind": "trikernel", "weight": 4})
     return out
